@@ -162,6 +162,10 @@ func CalculateGaussianRate(
 	repeat, frequency, peak, stddev time.Duration,
 	weightsArg, distributionTypeArg string,
 ) (*api.Rates, error) {
+	if frequency <= 0 {
+		return nil, fmt.Errorf("iteration frequency %s must be positive", frequency)
+	}
+
 	weights := strings.Split(weightsArg, ",")
 	weightsSlice := make([]float64, 0, len(weights))
 
